@@ -30,6 +30,7 @@ func TestWorker(t *testing.T) {
 		"C12/ohp":      runOHP,
 		"C13/epic":     runEPIC,
 		"C15/bfdlinks": runBFDLinks,
+		"C21/spao":     runSPAO,
 		"C17/config":   runConfig,
 		"C22/paths":    runPaths,
 		"C28/combine":  runCombine,
